@@ -78,7 +78,10 @@ fn render_expr(e: &Value) -> String {
         }
         "loop" => format!("loop {{\n{}        break;\n    }}", render_stmts(&arr(e, "body"), "        ")),
         "while" => format!("while {} {{\n{}    }}", s(e, "cond"), render_stmts(&arr(e, "body"), "        ")),
-        "for" => format!("for _i in 0..3 {{\n{}    }}", render_stmts(&arr(e, "body"), "        ")),
+        "for" => {
+            let pat = e.get("pat").and_then(|x| x.as_str()).unwrap_or("_i");
+            format!("for {} in 0..3 {{\n{}    }}", pat, render_stmts(&arr(e, "body"), "        "))
+        }
         "closure" => format!("|| {}", render_expr(&e["e"])),
         "paren" => format!("({})", render_expr(&e["e"])),
         _ => s(e, "text"),
@@ -406,6 +409,14 @@ pub fn exec_project(input: &Value) -> (Value, Value) {
         }
     }
     let _ = std::fs::create_dir_all(&src);
+    for f in arr(&input["project"], "outside") {
+        // files beside the project directory (not part of the project)
+        let p = src.join(s(&f, "path"));
+        if let Some(d) = p.parent() {
+            let _ = std::fs::create_dir_all(d);
+        }
+        let _ = std::fs::write(&p, s(&f, "raw"));
+    }
     let relative = input["project"].get("relative").and_then(|x| x.as_bool()).unwrap_or(false);
     let old_cwd = std::env::current_dir().ok();
     let project_arg: String = if relative {
@@ -784,6 +795,10 @@ pub fn random_project(rng: &mut Rng, nfiles: usize, adversarial: bool, externs: 
                 attrs.insert(0, last);
             }
         }
+        if rng.chance(1, 7) {
+            // a container-level rename (the wire name of the type itself: no TypeScript name depends on it)
+            attrs.push(attr(*rng.pick(&["serde(rename = \"RenamedDto\")", "serde(rename = \"renamed_record\", deny_unknown_fields)", "serde(rename(serialize = \"OutDto\", deserialize = \"InDto\"))"])));
+        }
         if rng.chance(1, 6) {
             attrs.insert(0, attr(*rng.pick(&["cfg(not(test))", "cfg(any(test, feature = \"full\"))", "cfg(feature = \"test-utils\")", "cfg_attr(test, derive(PartialEq))", "allow(dead_code)", "non_exhaustive"])));
         }
@@ -996,6 +1011,12 @@ pub fn random_project(rng: &mut Rng, nfiles: usize, adversarial: bool, externs: 
             body.push(json!({"k": "let", "pat": "typed", "name": "local_v", "ty": tn, "init": typed_init(rng, &tn)}));
             locals.push(("local_v".into(), tn));
         }
+        if !locals.is_empty() && rng.chance(1, 4) {
+            // a loop whose variable re-uses the name of a parameter / binding: after the loop the outer one is back in force
+            let (n, _) = rng.pick(&locals).clone();
+            let pat = match rng.below(3) { 0 => format!("&{}", n), 1 => format!("(_k, {})", n), _ => n };
+            body.push(json!({"k": "expr", "semi": false, "e": {"k": "for", "pat": pat, "body": []}}));
+        }
         for _ in 0..rng.below(3) {
             let e = emit_expr(rng, &ev_names, &type_names, &locals, adversarial);
             body.push(wrap_emit(rng, e));
@@ -1060,7 +1081,9 @@ pub fn random_project(rng: &mut Rng, nfiles: usize, adversarial: bool, externs: 
             body.push(json!({"k": "expr", "e": {"k": "mcall", "recv": e, "method": "ok", "args": []}}));
         }
         body.push(json!({"k": "other", "text": "todo!()"}));
-        let cmd_attr = *rng.pick(&["tauri::command", "tauri::command", "command", "tauri::command(rename_all = \"snake_case\")", "tauri::command(async)", "tauri::command(rename_all = \"camelCase\", async)", "tauri::command(root = \"crate\")"]);
+        let cmd_attr = *rng.pick(&["tauri::command", "tauri::command", "command", "tauri::command(rename_all = \"snake_case\")", "tauri::command(async)", "tauri::command(rename_all = \"camelCase\", async)", "tauri::command(root = \"crate\")",
+            // the imported macro, with arguments
+            "command(async)", "command(rename_all = \"snake_case\")", "command(root = \"crate\", async)"]);
         let mut attrs = Vec::new();
         if rng.chance(1, 3) {
             attrs.push(attr(*rng.pick(&["allow(dead_code)", "cfg(not(test))", "cfg(feature = \"testing\")", "inline", "cfg_attr(debug_assertions, allow(unused))", "must_use"])));
@@ -1249,12 +1272,30 @@ pub fn random_project(rng: &mut Rng, nfiles: usize, adversarial: bool, externs: 
     if rng.chance(1, 3) {
         files.push(json!({"path": "sub/empty.rs", "raw": ""}));
     }
+    if rng.chance(1, 4) {
+        // marker files of other tools in a directory that holds sources (cache tag, ignore files): not the walker's business
+        let dirs: Vec<String> = files.iter().filter_map(|f| { let p = s(f, "path"); p.rfind('/').map(|i| p[..i].to_string()) })
+            .filter(|d| !d.starts_with("target") && !d.starts_with(".git") && !d.contains('\u{fffd}')).collect();
+        if !dirs.is_empty() {
+            let d = rng.pick(&dirs).clone();
+            let (name, text) = *rng.pick(&[("CACHEDIR.TAG", "Signature: 8a477f597d28d172789f06886806bc55\n# This file is a cache directory tag.\n"),
+                (".gitignore", "*\n"), (".ignore", "*.rs\n"), (".nomedia", ""), (".cargo-ok", "{\"v\":1}")]);
+            files.push(json!({"path": format!("{}/{}", d, name), "raw": text}));
+        }
+    }
+    let mut outside: Vec<Value> = Vec::new();
+    if rng.chance(1, 4) {
+        // a module declared with `#[path]` that lives outside the project path (shared between crates): its commands are
+        // not this project's
+        files.push(json!({"path": "shared_link.rs", "items": [{"k": "other", "text": "#[path = \"../outside_shared/remote.rs\"]\npub mod remote;"}]}));
+        outside.push(json!({"path": "../outside_shared/remote.rs", "raw": "use serde::{Deserialize, Serialize};\n\n#[derive(Serialize, Deserialize)]\npub struct RemoteInfo {\n    pub host: String,\n}\n\n#[tauri::command]\npub fn outside_ping(info: RemoteInfo) -> RemoteInfo {\n    info\n}\n"}));
+    }
     if !adversarial && rng.chance(1, 6) {
         // the project is addressed by a *relative* path from a directory that has an ancestor called `target`:
         // nothing below the project path is excluded by that
-        return json!({"files": files, "root_prefix": "clients/target/pos-app", "relative": true});
+        return json!({"files": files, "outside": outside, "root_prefix": "clients/target/pos-app", "relative": true});
     }
-    json!({"files": files, "root_prefix": if adversarial && rng.chance(1, 6) { "x/target/y" } else { "" }, "reanalyse": rng.chance(1, 6), "trailing_slash": rng.chance(1, 5)})
+    json!({"files": files, "outside": outside, "root_prefix": if adversarial && rng.chance(1, 6) { "x/target/y" } else { "" }, "reanalyse": rng.chance(1, 6), "trailing_slash": rng.chance(1, 5)})
 }
 
 /// group `project`: whole-pipeline cases
